@@ -274,6 +274,23 @@ func fromNative(rv reflect.Value) value {
 	panic(fmt.Sprintf("fromNative: unsupported kind %s", rv.Kind()))
 }
 
+// sliceHasSym reports whether a is a slice with a symbolic element.
+func sliceHasSym(fr *frame, a value) bool {
+	sl, ok := a.([]value)
+	if !ok {
+		return false
+	}
+	for _, e := range sl {
+		if fr.i.ps != nil {
+			e = fr.i.ps.resolveValue(e)
+		}
+		if isSym(e) {
+			return true
+		}
+	}
+	return false
+}
+
 func makeNative(name string, f interface{}) externalFn {
 	fv := reflect.ValueOf(f)
 	ft := fv.Type()
@@ -283,7 +300,7 @@ func makeNative(name string, f interface{}) externalFn {
 			if fr.i.ps != nil {
 				a = fr.i.ps.resolveValue(a)
 			}
-			if isSym(a) {
+			if isSym(a) || sliceHasSym(fr, a) {
 				if r, ok := symbolicStringFunc(fr, name, args); ok {
 					return r
 				}
